@@ -30,6 +30,9 @@ NAMINGS = {
               "prefixes": None, "api": "bytes"},
     "mixed": {"names": {"N1": "rule one", "N2": "règle d'été", "N3": "third ☃", "NX": "ghost"}, "descs": {"d": "my description"},
               "prefixes": None, "api": "mixed"},
+    # names that are different strings but canonically equivalent (NFC / NFD): they are different filters
+    "nfd": {"names": {"N1": "Caf\u00e9", "N2": "Cafe\u0301", "N3": "Re\u0301union \u212b", "NX": "\u1112\u1161\u11ab"},
+            "descs": {"d": "de\u0301tail \u2126"}, "prefixes": None},
     "custom": {"names": {"N1": "Filter: old style", "N2": "b # D-like", "N3": "ünï", "NX": "ghost"},
                "descs": {"d": "Description: old style text"}, "prefixes": ("# N: ", "# D: ")},
 }
@@ -57,7 +60,10 @@ def run_history(task):
     pre = nm["prefixes"]
     fs = F.sfactory.FiltersSet("t", *pre) if pre else F.sfactory.FiltersSet("t")
     for n, d in initfs:
-        fs.addfilter(N[n], *F.DEFS[d])
+        r0 = F.call(fs.addfilter, N[n], *F.DEFS[d])
+        if r0 != "None":
+            return [{"prop": prop if prop in ("C11", "C12") else "C12", "step": -1,
+                     "what": "building the initial set: addfilter(%r) gave %s" % (N[n], r0)}], 0
     N_str = N
     api = nm.get("api")
     B = lambda x: x.encode("utf-8") if isinstance(x, str) else x          # noqa: E731
@@ -131,14 +137,14 @@ def run_history(task):
 STATUS = ("enable", "disable", "move", "remove", "reload")
 EDIT = ("update", "replace", "enable", "disable")
 PLANS = {
-    ("C12", "quick"): [(2, [("N1", "D1"), ("N2", "D2")], ["plain", "bytes"]), (2, [], ["plain"]), (2, [("N1", "D1")], ["nasty", "mixed"]),
+    ("C12", "quick"): [(2, [("N1", "D1"), ("N2", "D2")], ["plain", "bytes", "nfd"]), (2, [], ["plain"]), (2, [("N1", "D1")], ["nasty", "mixed"]),
                        (3, [("N1", "D1"), ("N2", "D2")], ["plain"], STATUS), (3, [("N1", "D1")], ["plain"], EDIT)],
-    ("C12", "thorough"): [(3, [("N1", "D1"), ("N2", "D2")], ["plain", "nasty", "bytes", "mixed"]), (3, [], ["plain", "bytes"]), (3, [("N1", "D2")], ["plain", "mixed"]),
+    ("C12", "thorough"): [(3, [("N1", "D1"), ("N2", "D2")], ["plain", "nasty", "bytes", "mixed", "nfd"]), (3, [], ["plain", "bytes"]), (3, [("N1", "D2")], ["plain", "mixed"]),
                           (5, [("N1", "D1"), ("N2", "D2")], ["plain"], STATUS), (4, [("N1", "D1")], ["plain"], EDIT)],
-    ("C11", "quick"): [(2, [("N1", "D1"), ("N2", "D2")], ["plain", "nasty", "custom", "meta", "intl"]), (2, [], ["nasty", "bytes"]),
+    ("C11", "quick"): [(2, [("N1", "D1"), ("N2", "D2")], ["plain", "nasty", "custom", "meta", "intl", "nfd"]), (2, [], ["nasty", "bytes"]),
                        (3, [("N1", "D1"), ("N2", "D2")], ["nasty", "custom", "meta", "intl"], STATUS),
                        (2, [("N1", "D3"), ("N2", "D3")], ["plain", "custom"], ALLOPS, ("D3",))],
-    ("C11", "thorough"): [(3, [("N1", "D1"), ("N2", "D2")], ["plain", "nasty", "custom", "meta", "intl", "bytes"]), (3, [], ["nasty", "custom", "meta", "intl"]),
+    ("C11", "thorough"): [(3, [("N1", "D1"), ("N2", "D2")], ["plain", "nasty", "custom", "meta", "intl", "bytes", "nfd"]), (3, [], ["nasty", "custom", "meta", "intl"]),
                           (3, [("N1", "D3"), ("N2", "D3")], ["plain", "custom", "meta"], ALLOPS, ("D3",))],
 }
 
@@ -168,7 +174,7 @@ def run(prop, tier, seed):
         machinery.append("TLC FiltersSet (simulate): %s %s" % (res["error"], res["violated"]))
     trans += res["states"]
     for i, h in enumerate(hs):
-        tasks.append((h, [("N1", "D1")], ["plain", "nasty", "custom", "meta", "intl", "bytes", "mixed"][i % 7], prop))
+        tasks.append((h, [("N1", "D1")], ["plain", "nasty", "custom", "meta", "intl", "bytes", "mixed", "nfd"][i % 8], prop))
     nsteps = 0
     probs = []
     with mp.Pool(14) as pool:
